@@ -394,6 +394,76 @@ Proof. rewrite app_length. cbn [length]. lia. Qed.
 
 Set Default Timeout 30.
 (* the two bracketed sections of a written starred row *)
+Lemma len_pre (pre : str) : length (pre ++ [ch_space]) = length pre + 1.
+Proof. rewrite app_length. reflexivity. Qed.
+
+Lemma sections_gen (pre : str) A d :
+  memb ch_lbrack pre = false -> memb ch_rbrack pre = false -> memb ch_lbrace pre = false -> memb ch_rbrace pre = false ->
+  none_of brackets A = true -> desc_okP d ->
+  let R := pre ++ rest_of (extras_of A d) in
+  let idx := Z.of_nat (length pre + (if nonempty (extras_of A d) then 1 else 0)) in
+  exists idx2 idx3,
+    get_line_section R idx ch_lbrace ch_rbrace = (Some A, idx2) /\
+    get_line_section R idx2 ch_lbrack ch_rbrack
+    = (Some (match d with Some D => D | None => [] end), idx3).
+Proof.
+  intros q1 q2 q3 q4 HA Hd R idx.
+  destruct (brackets_free A HA) as (a1 & a2 & a3 & a4).
+  set (P := pre ++ [ch_space]).
+  assert (LP : length P = length pre + 1) by (unfold P; apply len_pre).
+  assert (p1 : memb ch_lbrack P = false) by (unfold P; memb_solve).
+  assert (p2 : memb ch_rbrack P = false) by (unfold P; memb_solve).
+  assert (p3 : memb ch_lbrace P = false) by (unfold P; memb_solve).
+  assert (p4 : memb ch_rbrace P = false) by (unfold P; memb_solve).
+  subst R idx. unfold rest_of, extras_of.
+  destruct A as [|a A'].
+  - (* no attributes *)
+    cbn [nonempty app].
+    destruct d as [[|c D']|].
+    + destruct Hd as (Hd & _). discriminate.
+    + destruct Hd as (_ & _ & Hdb). destruct (brackets_free _ Hdb) as (d1 & d2 & d3 & d4).
+      pose proof d1 as e1; pose proof d2 as e2; pose proof d3 as e3; pose proof d4 as e4.
+      rewrite memb_cons in e1, e2, e3, e4.
+      apply orb_false_iff in e1 as [c1 D1]. apply orb_false_iff in e2 as [c2 D2].
+      apply orb_false_iff in e3 as [c3 D3]. apply orb_false_iff in e4 as [c4 D4].
+      cbn [nonempty app].
+      match goal with |- context [get_line_section ?r _ _ _] =>
+        replace r with (P ++ [] ++ ch_lbrack :: (c :: D') ++ ch_rbrack :: []) by (unfold P; list_eq) end.
+      rewrite <- LP.
+      eexists. eexists. split.
+      * apply gls_none; memb_solve.
+      * apply gls_found; try reflexivity; assumption.
+    + cbn [nonempty]. rewrite app_nil_r. eexists. eexists. split; apply gls_none; memb_solve.
+  - (* attributes *)
+    cbn [nonempty].
+    destruct d as [[|c D']|].
+    + destruct Hd as (Hd & _). discriminate.
+    + destruct Hd as (_ & _ & Hdb). destruct (brackets_free _ Hdb) as (d1 & d2 & d3 & d4).
+      pose proof d1 as e1; pose proof d2 as e2; pose proof d3 as e3; pose proof d4 as e4.
+      rewrite memb_cons in e1, e2, e3, e4.
+      apply orb_false_iff in e1 as [c1 D1]. apply orb_false_iff in e2 as [c2 D2].
+      apply orb_false_iff in e3 as [c3 D3]. apply orb_false_iff in e4 as [c4 D4].
+      cbn [nonempty app].
+      match goal with |- context [get_line_section ?r _ _ _] =>
+        replace r with (P ++ [] ++ ch_lbrace :: (a :: A') ++ ch_rbrace :: (ch_space :: ch_lbrack :: (c :: D') ++ [ch_rbrack])) by (unfold P; list_eq) end.
+      rewrite <- LP.
+      eexists. eexists. split.
+      * apply gls_found; try reflexivity; try assumption; memb_solve.
+      * replace (P ++ [] ++ ch_lbrace :: (a :: A') ++ ch_rbrace :: ch_space :: ch_lbrack :: (c :: D') ++ [ch_rbrack])
+          with ((P ++ ch_lbrace :: (a :: A')) ++ [ch_rbrace; ch_space] ++ ch_lbrack :: (c :: D') ++ ch_rbrack :: [])
+          by list_eq.
+        rewrite (len_app_cons P ch_lbrace (a :: A')).
+        apply gls_found; try reflexivity; try assumption; memb_solve.
+    + cbn [nonempty app].
+      match goal with |- context [get_line_section ?r _ _ _] =>
+        replace r with (P ++ [] ++ ch_lbrace :: (a :: A') ++ ch_rbrace :: []) by (unfold P; list_eq) end.
+      rewrite <- LP.
+      eexists. eexists. split.
+      * apply gls_found; try reflexivity; assumption.
+      * apply gls_none; memb_solve.
+Qed.
+
+
 Lemma sections_star lvl n A d :
   ename_ok n = true -> none_of brackets A = true -> desc_okP d ->
   let R := row_star (S lvl) n (extras_of A d) in
@@ -1138,3 +1208,290 @@ Proof. reflexivity. Qed.
 Lemma xml_name_text_last_term_refuted :
   exists name, ename_ok name = true /\ last_component name <> name.
 Proof. exists [109%N; 47%N; 115%N]. split; [reflexivity | discriminate]. Qed.
+
+(* ------------------------------------------------------------------ root lines (level 0) *)
+
+Definition root_cur (n : str) : str := s_root ++ n ++ s_root.
+Definition row_root (n E : str) : str := root_cur n ++ rest_of E.
+
+Lemma rest_of_no_root E : prefixb s_root (rest_of E) = false.
+Proof. unfold rest_of. destruct (nonempty E); reflexivity. Qed.
+
+Lemma tail_match_root_rest A d :
+  none_of brackets A = true -> desc_okP d ->
+  tail_match (s_root ++ rest_of (extras_of A d))
+  = Some (3 + (if nonempty (extras_of A d) then 1 else 0)).
+Proof.
+  intros HA Hd.
+  assert (Ht : tail_match (rest_of (extras_of A d)) = Some (if nonempty (extras_of A d) then 1 else 0)).
+  { destruct (nonempty (extras_of A d)) eqn:E.
+    - apply tail_match_rest; assumption.
+    - unfold rest_of. rewrite E. reflexivity. }
+  unfold tail_match in Ht. rewrite rest_of_no_root in Ht.
+  unfold tail_match. rewrite prefixb_self.
+  change (skipn 3 (s_root ++ rest_of (extras_of A d))) with (rest_of (extras_of A d)).
+  rewrite Ht. reflexivity.
+Qed.
+
+Lemma root_pre_len (n : str) : length (root_cur n) = 3 + (length n + 3).
+Proof. unfold root_cur. rewrite !app_length. reflexivity. Qed.
+
+Lemma get_tag_name_root fixed n A d :
+  ename_ok n = true -> none_of brackets A = true -> desc_okP d ->
+  ext_free fixed n (row_root n (extras_of A d)) ->
+  contains s_zw (row_root n (extras_of A d)) = false ->
+  get_tag_name fixed (row_root n (extras_of A d))
+  = (Some n, Z.of_nat (length (root_cur n) + (if nonempty (extras_of A d) then 1 else 0))).
+Proof.
+  intros Hn HA Hd Hx Hz.
+  destruct (ename_ok_parts n Hn) as (Hne & Hws & Hb & _ & Hap & _ & _).
+  assert (Hnn : n <> []) by (destruct n; discriminate).
+  set (k := if nonempty (extras_of A d) then 1 else 0) in *.
+  assert (Hrow : row_root n (extras_of A d) = s_root ++ n ++ (s_root ++ rest_of (extras_of A d))).
+  { unfold row_root, root_cur. list_eq. }
+  assert (Hs : search_from (row_root n (extras_of A d)) 0 = Some (3, length n, 3 + (length n + (3 + k)))).
+  { rewrite Hrow. unfold s_root at 1. cbn [app search_from match_at].
+    change (N.eqb 39 ch_star) with false. cbv iota.
+    change (39%N :: 39%N :: 39%N :: n ++ s_root ++ rest_of (extras_of A d))
+      with (s_root ++ (n ++ s_root ++ rest_of (extras_of A d))).
+    rewrite prefixb_self.
+    change (skipn 3 (s_root ++ (n ++ s_root ++ rest_of (extras_of A d)))) with (n ++ s_root ++ rest_of (extras_of A d)).
+    rewrite (lazy2_over n (s_root ++ rest_of (extras_of A d)) 0%N (3 + k)).
+    - reflexivity.
+    - exact Hnn.
+    - apply last_nonws_of_no_outer; assumption.
+    - exact Hb.
+    - exact Hap.
+    - apply tail_match_root_rest; assumption. }
+  assert (Hsub : sub (row_root n (extras_of A d)) 3 (3 + length n) = n).
+  { rewrite Hrow. unfold sub. replace (3 + length n - 3) with (length n) by lia.
+    change (skipn 3 (s_root ++ n ++ s_root ++ rest_of (extras_of A d))) with (n ++ s_root ++ rest_of (extras_of A d)).
+    apply firstn_app_exact. }
+  unfold get_tag_name. rewrite (remove_all_id _ _ Hz). rewrite Hs, Hsub.
+  rewrite (strip_id n Hws), Hne.
+  replace (3 + (length n + (3 + k))) with (length (root_cur n) + k) by (rewrite root_pre_len; lia).
+  unfold ext_free in Hx. destruct fixed; cbn [negb andb]; rewrite Hx; reflexivity.
+Qed.
+
+Lemma read_row_eval_root fixed R t n a d idx :
+  R = ch_apos :: ch_apos :: ch_apos :: t -> get_tag_name fixed R = (Some n, idx) ->
+  nonempty n = true -> create_entry fixed R (Some n) = Ok (false, Some (n, a, d)) ->
+  read_row fixed false R = Ok (Some (mkParsed true 0 n a d)).
+Proof.
+  intros HR Hg Hn Hc. destruct n as [|c nm]; [discriminate|].
+  subst R. unfold read_row. unfold str in *.
+  change (startswith s_root (ch_apos :: ch_apos :: ch_apos :: t)) with (prefixb [] t).
+  cbn [prefixb]. cbv iota. cbn [bind]. rewrite Hg. cbv beta iota. rewrite Hc. reflexivity.
+Qed.
+
+Lemma read_row_root fixed n A d a' :
+  ename_ok n = true -> none_of brackets A = true -> desc_okP d ->
+  parse_attribute_string A = Ok a' -> filter kept a' = a' ->
+  ext_free fixed n (row_root n (extras_of A d)) ->
+  contains s_zw (row_root n (extras_of A d)) = false ->
+  read_row fixed false (row_root n (extras_of A d)) = Ok (Some (mkParsed true 0 n a' d)).
+Proof.
+  intros Hn HA Hd Hp Hk Hx Hz.
+  destruct (ename_ok_parts n Hn) as (Hne & _ & Hb & _).
+  destruct (brackets_free n Hb) as (n1 & n2 & n3 & n4).
+  pose proof (get_tag_name_root fixed n A d Hn HA Hd Hx Hz) as Hg.
+  destruct (sections_gen (root_cur n) A d) as (idx2 & idx3 & S1 & S2); try assumption;
+    try (unfold root_cur, s_root; memb_solve).
+  eapply read_row_eval_root.
+  - unfold row_root, root_cur, s_root. cbn [app]. reflexivity.
+  - exact Hg.
+  - exact Hne.
+  - fold (row_root n (extras_of A d)) in S1, S2.
+    rewrite (create_entry_eval fixed _ n _ A idx2 _ idx3 a' Hg Hne S1 Hp S2).
+    rewrite Hk. do 4 f_equal.
+    destruct d as [D|]; [|reflexivity].
+    destruct Hd as (Hdn & Hdw & _). destruct D as [|c D']; [discriminate|].
+    rewrite (strip_id _ Hdw). reflexivity.
+Qed.
+
+Lemma write_tag_line_root dis n a d :
+  memb ch_slash n = false ->
+  write_tag_line dis n 0 a d = Some (flushed (root_cur n) (format_props_and_desc dis a d)).
+Proof.
+  intro Hs. unfold write_tag_line. rewrite Hs. unfold flush_current_tag, flushed, root_cur.
+  cbn [s_root app nonempty orb]. reflexivity.
+Qed.
+
+Lemma strip_flushed_root n E : strip (flushed (root_cur n) E) = flushed (root_cur n) E.
+Proof.
+  apply strip_id. unfold flushed, root_cur. unfold s_root at 1. cbn [app].
+  destruct (nonempty E).
+  - apply no_outer_ws_intro; [reflexivity|].
+    replace (39%N :: 39%N :: 39%N :: (n ++ s_root) ++ ch_space :: s_nowiki_open ++ E ++ s_nowiki_close)
+      with ((39%N :: 39%N :: 39%N :: (n ++ s_root) ++ ch_space :: s_nowiki_open ++ E) ++ s_nowiki_close) by list_eq.
+    unfold s_nowiki_close at 1. rewrite last_app_cons. reflexivity.
+  - apply no_outer_ws_intro; [reflexivity|].
+    replace (39%N :: 39%N :: 39%N :: n ++ s_root) with ((39%N :: 39%N :: 39%N :: n) ++ s_root) by list_eq.
+    unfold s_root. rewrite last_app_cons. reflexivity.
+Qed.
+
+(* a root line (level 0) of the tag section, both versions of the reader *)
+Lemma wiki_root_line_roundtrip fixed dis n a d line :
+  name_ok n = true -> desc_ok d = true ->
+  attr_ok a = true -> wiki_text_ok (format_tag_attributes dis a) = true ->
+  write_tag_line dis n 0 a d = Some line ->
+  row_free_of_reserved fixed n line = true ->
+  read_tag_line fixed line
+  = Ok (Some (mkParsed true 0 n (filter (fun kv => negb (dis (fst kv))) a) d)).
+Proof.
+  intros Hn Hd Ha Hw Hl Hr.
+  pose proof (name_ok_ename n Hn) as Hen.
+  destruct (name_ok_parts n Hn) as (_ & _ & _ & Hlt & Hap & _ & Hs).
+  rewrite (write_tag_line_root dis n a d Hs) in Hl.
+  assert (El : flushed (root_cur n) (format_props_and_desc dis a d) = line) by congruence.
+  clear Hl. subst line.
+  assert (Hc : lt_clean (root_cur n ++ [ch_space]) = true).
+  { apply lt_clean_no_lt. unfold root_cur, s_root. memb_solve. }
+  assert (He : lt_clean (format_props_and_desc dis a d) = true).
+  { rewrite format_props_and_desc_eq. apply lt_clean_extras.
+    - intros _. apply wiki_text_lt_ok. exact Hw.
+    - destruct d as [D|]; [|exact I]. unfold desc_ok in Hd.
+      apply andb_true_iff in Hd as [_ Hd]. apply wiki_text_lt_ok. exact Hd. }
+  pose proof (remove_nowiki_flushed _ _ Hc He) as Hrem.
+  pose proof (fatal_flushed (root_cur n) (format_props_and_desc dis a d) Hc) as Hf.
+  rewrite read_tag_line_unfold. rewrite strip_flushed_root.
+  unfold row_free_of_reserved in Hr. rewrite Hrem in Hr.
+  apply andb_true_iff in Hr as [Hx Hz]. apply negb_true_iff in Hz.
+  assert (Hx' : ext_free fixed n (root_cur n ++ rest_of (format_props_and_desc dis a d))).
+  { unfold ext_free. destruct fixed; apply negb_true_iff in Hx; exact Hx. }
+  clear Hx.
+  unfold remove_nowiki_tag_from_line in *. cbn [fst] in Hf. rewrite Hf. rewrite Hrem.
+  fold (row_root n (format_props_and_desc dis a d)) in *.
+  rewrite format_props_and_desc_eq in *.
+  apply read_row_root; try assumption.
+  - unfold wiki_text_ok in Hw. apply andb_true_iff in Hw. tauto.
+  - apply desc_ok_P. exact Hd.
+  - apply attr_roundtrip_exact. exact Ha.
+  - apply attr_ok_kept. apply attr_ok_filter. exact Ha.
+Qed.
+
+(* ------------------------------------------------------------------ the whole tag section *)
+
+(* what the per-line theorems need of one entry and its written line *)
+Definition item_line_ok (fixed : bool) (dis : str -> bool) (e : tag_item) (line : str) : Prop :=
+  name_ok (last (ti_path e) []) = true /\ desc_ok (ti_desc e) = true /\ attr_ok (ti_attrs e) = true
+  /\ wiki_text_ok (format_tag_attributes dis (ti_attrs e)) = true
+  /\ write_tag_line dis (last (ti_path e) []) (length (ti_path e) - 1) (ti_attrs e) (ti_desc e) = Some line
+  /\ row_free_of_reserved fixed (last (ti_path e) []) line = true.
+
+Definition kept_item (dis : str -> bool) (e : tag_item) : tag_item :=
+  mkItem (ti_path e) (filter (fun kv => negb (dis (fst kv))) (ti_attrs e)) (ti_desc e).
+
+Lemma read_tag_section_roundtrip fixed dis es : forall lines previous,
+  Forall2 (item_line_ok fixed dis) es lines ->
+  paths_parents_first previous (map ti_path es) ->
+  read_tag_section fixed previous lines = Ok (map (kept_item dis) es).
+Proof.
+  induction es as [|e es IH]; intros lines previous HF HP.
+  - inversion HF; subst. reflexivity.
+  - inversion HF as [|? l ? lines' He HF']; subst. clear HF.
+    destruct He as (Hn & Hd & Ha & Hw & Hl & Hr).
+    cbn [map paths_parents_first] in HP. destruct HP as (Hne & Hle & Hpre & HP).
+    cbn [read_tag_section map].
+    destruct (length (ti_path e) - 1) as [|lvl] eqn:Elvl.
+    + (* a root line *)
+      rewrite (wiki_root_line_roundtrip fixed dis _ _ _ _ Hn Hd Ha Hw Hl Hr). cbn [bind p_root p_name p_attrs p_desc].
+      assert (Hp : [last (ti_path e) []] = ti_path e).
+      { destruct (ti_path e) as [|x [|y t]]; [congruence | reflexivity | simpl in Elvl; discriminate]. }
+      rewrite Hp. rewrite (IH lines' (ti_path e) HF' HP). reflexivity.
+    + rewrite (wiki_line_roundtrip fixed dis lvl _ _ _ _ Hn Hd Ha Hw Hl Hr). cbn [bind p_root p_level p_name p_attrs p_desc].
+      assert (Hlt : Nat.ltb (length previous) (S lvl) = false) by (apply Nat.ltb_ge; exact Hle).
+      rewrite Hlt. rewrite <- Hpre.
+      assert (Hp : removelast (ti_path e) ++ [last (ti_path e) []] = ti_path e)
+        by (symmetry; apply app_removelast_last; exact Hne).
+      rewrite Hp. rewrite (IH lines' (ti_path e) HF' HP). reflexivity.
+Qed.
+
+(* wiki_tag_section_roundtrip: decoding the lines written for a list of tag entries gives back the same entries --
+   long names (parents), attributes and descriptions -- when the list is parents-first and every entry is in the
+   class of the line theorems *)
+Lemma wiki_tag_section_roundtrip fixed dis es lines :
+  write_tag_section dis es = map Some lines ->
+  Forall (fun e => name_ok (last (ti_path e) []) = true /\ desc_ok (ti_desc e) = true /\ attr_ok (ti_attrs e) = true
+                   /\ wiki_text_ok (format_tag_attributes dis (ti_attrs e)) = true) es ->
+  Forall2 (fun e line => row_free_of_reserved fixed (last (ti_path e) []) line = true) es lines ->
+  paths_parents_first [] (map ti_path es) ->
+  read_tag_section fixed [] lines = Ok (map (kept_item dis) es).
+Proof.
+  intros Hw HF HR HP. apply (read_tag_section_roundtrip fixed dis es lines []); [|exact HP].
+  clear HP. revert lines Hw HR. induction es as [|e es IH]; intros lines Hw HR.
+  - destruct lines; [constructor | discriminate].
+  - destruct lines as [|l lines]; [discriminate|].
+    cbn [write_tag_section map] in Hw. inversion Hw as [[H1 H2]].
+    inversion HF as [|? ? He HF']; subst. inversion HR as [|? ? ? ? Hr HR']; subst.
+    constructor.
+    + destruct He as (a1 & a2 & a3 & a4). unfold item_line_ok. repeat split; assumption.
+    + apply IH; assumption.
+Qed.
+
+(* ------------------------------------------------------------------ hypotheses on the inputs only *)
+
+Definition ch_amp : N := 38%N.
+
+Lemma contains_needs_head p s c q : p = c :: q -> memb c s = false -> contains p s = false.
+Proof.
+  intros -> H. induction s as [|x t IH]; [reflexivity|].
+  rewrite memb_cons in H. apply orb_false_iff in H as [H1 H2].
+  cbn [contains prefixb]. rewrite H1. cbn [andb orb]. apply IH. exact H2.
+Qed.
+
+Lemma extras_amp_free A d :
+  memb ch_amp A = false ->
+  match d with Some D => memb ch_amp D = false | None => True end ->
+  memb ch_amp (extras_of A d) = false.
+Proof.
+  intros a1 HD. unfold extras_of.
+  assert (HDs : forall c D', d = Some (c :: D') -> N.eqb ch_amp c = false /\ memb ch_amp D' = false).
+  { intros c D' E. subst d. rewrite memb_cons in HD. apply orb_false_iff in HD. exact HD. }
+  destruct A as [|a A']; cbn [nonempty app].
+  - destruct d as [[|c D']|]; try reflexivity. destruct (HDs c D' eq_refl) as [dc dD]. cbn [app]. memb_solve.
+  - rewrite memb_cons in a1. apply orb_false_iff in a1 as [ac aA].
+    destruct d as [[|c D']|]; try (cbn [app]; memb_solve).
+    destruct (HDs c D' eq_refl) as [dc dD]. cbn [app]. memb_solve.
+Qed.
+
+(* the line the writer produces, and the row it becomes for the reader *)
+Lemma written_line_row dis lvl n a d :
+  name_ok n = true -> desc_ok d = true -> wiki_text_ok (format_tag_attributes dis a) = true ->
+  exists line, write_tag_line dis n (S lvl) a d = Some line
+               /\ remove_nowiki line = row_star (S lvl) n (format_props_and_desc dis a d).
+Proof.
+  intros Hn Hd Hw. rewrite (write_tag_line_star dis lvl n a d Hn). eexists. split; [reflexivity|].
+  destruct (name_ok_parts n Hn) as (_ & _ & _ & Hlt & _).
+  pose proof (lt_clean_cur lvl n Hlt) as Hc.
+  assert (He : lt_clean (format_props_and_desc dis a d) = true).
+  { rewrite format_props_and_desc_eq. apply lt_clean_extras.
+    - intros _. apply wiki_text_lt_ok. exact Hw.
+    - destruct d as [D|]; [|exact I]. unfold desc_ok in Hd.
+      apply andb_true_iff in Hd as [_ Hd]. apply wiki_text_lt_ok. exact Hd. }
+  rewrite (remove_nowiki_flushed _ _ Hc He). unfold row_star. list_eq.
+Qed.
+
+(* wiki_line_roundtrip with every hypothesis on the INPUTS (repaired reader): the zero-width-space entity cannot
+   occur in the row when name, attribute string and description hold no '&' *)
+Lemma wiki_line_roundtrip_inputs dis lvl n a d :
+  name_ok n = true -> desc_ok d = true ->
+  attr_ok a = true -> wiki_text_ok (format_tag_attributes dis a) = true ->
+  contains s_extend_here n = false ->
+  memb ch_amp n = false -> memb ch_amp (format_tag_attributes dis a) = false ->
+  match d with Some D => memb ch_amp D = false | None => True end ->
+  exists line, write_tag_line dis n (S lvl) a d = Some line /\
+    read_tag_line true line
+    = Ok (Some (mkParsed false (S lvl) n (filter (fun kv => negb (dis (fst kv))) a) d)).
+Proof.
+  intros Hn Hd Ha Hw Hx n1 a1 d1.
+  destruct (written_line_row dis lvl n a d Hn Hd Hw) as (line & Hl & Hrow).
+  exists line. split; [exact Hl|].
+  apply (wiki_line_roundtrip true dis lvl n a d line); try assumption.
+  unfold row_free_of_reserved. rewrite Hx, Hrow. cbn [negb andb].
+  apply negb_true_iff. apply (contains_needs_head s_zw _ ch_amp [35; 56; 50; 48; 51; 59]%N); [reflexivity|].
+  unfold row_star, rest_of. rewrite format_props_and_desc_eq.
+  pose proof (extras_amp_free _ d a1 d1) as e1.
+  assert (s1 : memb ch_amp (stars (S lvl)) = false) by (apply memb_stars; reflexivity).
+  destruct (nonempty (extras_of (format_tag_attributes dis a) d)); memb_solve.
+Qed.
